@@ -2,6 +2,8 @@ package lint
 
 import (
 	"fmt"
+	"go/token"
+	"strings"
 
 	"golang.org/x/tools/go/ssa"
 )
@@ -58,9 +60,85 @@ func ruleContactRefresh() *Rule {
 			if len(out) == 0 {
 				return []Obligation{{Rule: id, Construct: "error-free returns of (*Raft).AppendEntries", Verdict: Undecided, Detail: "no error-free return found"}}
 			}
-			return out
+			return append(out, electionContact(p, id)...)
 		},
 	}
+}
+
+// electionContact: the other half of the promise. A voter that has acknowledged a heartbeat does not vote for another
+// node for an election timeout — and does not campaign itself: election() goes on to a (pre)candidacy or to a round of
+// vote requests only over the edge on which an election timeout has passed since lastContact, whatever flags it holds.
+func electionContact(p *Program, id string) []Obligation {
+	fn := p.Func("(*Raft).election")
+	contact := p.Field("Raft.lastContact")
+	if fn == nil || contact == nil {
+		return missing(id, "(*Raft).election / Raft.lastContact")
+	}
+	ob := Obligation{Rule: id, Construct: "ELECTION-CONTACT election() campaigns only an election timeout after the last contact", Pos: p.Pos(fn.Pos())}
+	fr := NewRootFrame(fn)
+	// the contact test: time.Since(r.lastContact) < r.options.electionTimeout (or the mirrored forms)
+	var test *ssa.BasicBlock
+	proceed := -1
+	for _, b := range fn.Blocks {
+		iff, ok := b.Instrs[len(b.Instrs)-1].(*ssa.If)
+		if !ok {
+			continue
+		}
+		bo, ok := iff.Cond.(*ssa.BinOp)
+		if !ok {
+			continue
+		}
+		x, y := p.Canon(fr, bo.X).S, p.Canon(fr, bo.Y).S
+		since := func(s string) bool { return strings.Contains(s, "time.Since(") && strings.Contains(s, "lastContact") }
+		timeout := func(s string) bool { return strings.Contains(s, "electionTimeout") }
+		switch {
+		case since(x) && timeout(y) && (bo.Op == token.LSS || bo.Op == token.LEQ):
+			test, proceed = b, 1
+		case since(x) && timeout(y) && (bo.Op == token.GEQ || bo.Op == token.GTR):
+			test, proceed = b, 0
+		case timeout(x) && since(y) && (bo.Op == token.GTR || bo.Op == token.GEQ):
+			test, proceed = b, 1
+		case timeout(x) && since(y) && (bo.Op == token.LSS || bo.Op == token.LEQ):
+			test, proceed = b, 0
+		}
+	}
+	if test == nil {
+		ob.Verdict = Violated
+		ob.Detail = "election() does not compare time.Since(r.lastContact) with the election timeout: a node that has just acknowledged the leader's heartbeat can campaign at once"
+		return []Obligation{ob}
+	}
+	ob.Pos = p.InstrPos(test.Instrs[len(test.Instrs)-1])
+	targets := map[string]bool{"(*Raft).becomePreCandidate": true, "(*Raft).becomeCandidate": true, "(*Raft).sendRequestVoteToPeers": true, "(*Raft).becomeLeader": true}
+	// reachable from the entry without taking the "timeout has passed" edge of the test
+	seen := map[*ssa.BasicBlock]bool{fn.Blocks[0]: true}
+	work := []*ssa.BasicBlock{fn.Blocks[0]}
+	bad := ""
+	for len(work) > 0 && bad == "" {
+		b := work[0]
+		work = work[1:]
+		for _, in := range b.Instrs {
+			if c, ok := in.(*ssa.Call); ok && c.Common().StaticCallee() != nil && targets[FuncName(c.Common().StaticCallee())] {
+				bad = FuncName(c.Common().StaticCallee()) + " at " + p.InstrPos(in)
+			}
+		}
+		for i, sc := range b.Succs {
+			if b == test && i == proceed {
+				continue
+			}
+			if !seen[sc] {
+				seen[sc] = true
+				work = append(work, sc)
+			}
+		}
+	}
+	if bad != "" {
+		ob.Verdict = Violated
+		ob.Detail = "election() can reach " + bad + " without the edge on which an election timeout has passed since lastContact: a voter that acknowledged the leader's heartbeat a moment ago (and so helped to renew its lease) campaigns at once, " +
+			"wins with a voter that is cut off from the leader, and commits a write while the old leader's lease — resting on that acknowledgement — is still valid"
+	} else {
+		ob.Verdict, ob.Detail = Discharged, "every (pre)candidacy and every round of vote requests started by election() lies behind the contact test"
+	}
+	return []Obligation{ob}
 }
 
 // ruleHandlerDemote: C16/C02 HANDLER-DEMOTE.
@@ -309,7 +387,7 @@ func rulePartialReset() *Rule {
 	return &Rule{
 		ID: id,
 		Text: "Every activation of becomeFollower ends with r.snapshot == nil (the partially received snapshot is discarded on every term/leader change, whatever the role was): " +
-			"a new leader's chunks must never extend the partial file of its predecessor's snapshot.",
+			"a new leader's chunks must never extend the partial file of its predecessor's snapshot. takeSnapshot, once it has compacted the log to its new snapshot, returns with r.snapshot == nil as well.",
 		Floor: 3,
 		Run: func(p *Program) []Obligation {
 			bf := p.Func("(*Raft).becomeFollower")
@@ -348,6 +426,25 @@ func rulePartialReset() *Rule {
 			}
 			if len(out) == 0 {
 				return missing(id, "a call of (*Raft).becomeFollower")
+			}
+			// ... and a local snapshot that has been published and adopted (the log compacted to it) leaves no partial file
+			// of an incoming one either: the directory of the incoming snapshot was created BEFORE the local one was, so once
+			// completed it would sort before it and SnapshotFile() would hand the installer the local, older snapshot.
+			if ts := p.Func("(*Raft).takeSnapshot"); ts != nil {
+				sp := NewSpace(CmpAtom("partialSnapshot?nil", "r.snapshot", "nil"), GhostAtom("compacted", "no", "yes"))
+				a := NewAnalysis(p, sp)
+				a.Hook = func(a *Analysis, f *Frame, in ssa.Instruction, st State) State {
+					if iface, m, _ := invokeOf(in); iface == "Log" && m == "Compact" && f.Parent == nil {
+						return sp.Assign(st, 1, 1)
+					}
+					if _, ok := in.(*ssa.Return); ok && f.Parent == nil {
+						a.Observe("end of takeSnapshot after the log was compacted to the new snapshot", f, in, st)
+					}
+					return st
+				}
+				a.RunFrame(NewRootFrame(ts), sp.Filter(sp.Top(), 1, 1))
+				out = append(out, evalObs(a, id, a.SortedObs(), func(_ *Observation, pt int) bool { return sp.Val(pt, 1) == 0 || sp.Val(pt, 0) == EQ }, nil,
+					"once the log is compacted to a local snapshot, no partially received snapshot is kept")...)
 			}
 			return out
 		},
